@@ -240,6 +240,7 @@ def run_once(d, sc, plan, exdev, ref):
             # reading the file must behave exactly like reading the reference bytes
             # (whether those read back faithfully is C01/C02/C07's business)
             def attempt(**kw):
+                seams.reseed_uuid(sc["seed"] + 1)  # same blank-node ids for both readers
                 try:
                     return ("ok", observe.doc_multiset(ProvDocument.deserialize(format=sc["fmt"], **kw)))
                 except Exception as e:
